@@ -48,6 +48,10 @@ def r09_1(ctx):
             s_ = sets[name]
             r.ob("sets:separators-kept:%s" % name, ord("&") not in s_ and ord("=") not in s_ and ord("?") not in s_, "", "`&`, `=`, `?` are not encoded by %s" % name)
         r.ob("sets:controls-and-space", all(all(c in s_ for c in list(range(0x20)) + [0x7f]) for s_ in sets.values()) and all(0x20 in sets[n] for n in sets if n != "api::rule::SIMPLE_ENCODE_SET"), "", "every set encodes C0 controls and DEL; every URL/query set encodes space")
+        def owner_key(f):
+            while f.is_closure and f.parent in F.fns:
+                f = F.fns[f.parent]
+            return f.key
         # which set is used where
         usage = {}
         for f in F.fn_list:
@@ -72,7 +76,11 @@ def r09_1(ctx):
             r.ob("sets:usage:%s" % k, sorted(usage.get(k, []), key=str) == sorted(w), F.fn(k).site, "%s encodes with %s" % (k.rsplit("::", 1)[1], usage.get(k)))
         extra = sorted(set(usage) - set(want))
         r.ob("sets:no-other-encoder", not extra, "", "no other percent-encoding call site: %s" % extra)
-    ctx.run_rule("R09.1", "encode-set algebra (const-evaluated)", body, floor=15)
+        # neither side decodes: the request path is matched as it was sent (only re-encoded, which keeps every
+        # existing escape), so a rule path must be taken as written too
+        dec = sorted({owner_key(f) for f in F.fn_list if not f.derived and f.file.startswith("src/") for bi, t, cal in f.calls() if cal is not None and not cal.local and cal.name.startswith("percent_decode")})
+        r.ob("sets:no-decoder", not dec, "", "percent-decoding call sites: %s" % dec)
+    ctx.run_rule("R09.1", "encode-set algebra (const-evaluated)", body, floor=16)
 
 
 def is_btree_collect(e):
@@ -136,11 +144,21 @@ def r09_2(ctx):
                 if cal is not None and cal.name == "next" and hl.in_loop(bi) and mentions(pvh.operand(t["args"][0]), lambda x: x[0] == "call" and x[1].rsplit("::", 1)[1] == "collect"):
                     oki = True
         r.ob("sort:build_sorted_query:iterates-the-map", oki, h.site, "and rebuilds the query by iterating it")
+        # both sides key the sorted map by the *decoded* names: what is collected is the parser's output as it is
+        for fn in (f, h):
+            keyed = []
+            for b in fn.all_bodies():
+                pvb = Prov(b, copies=True)
+                for bi, t, cal in b.calls():
+                    if cal is not None and cal.name == "collect" and any("BTreeMap" in F.types[x]["s"] for x in cal.substs):
+                        src = pvb.operand(t["args"][0])
+                        keyed.append(src[0] == "call" and src[1].rsplit("::", 1)[1] == "into_owned" and src[2] and src[2][0][0] == "call" and src[2][0][1].rsplit("::", 1)[1] == "parse")
+            r.ob("sort:keyed-by-decoded-names:%s" % fn.name, bool(keyed) and all(keyed), fn.site, "the sorted map is collected straight from form_urlencoded::parse(..).into_owned()")
         # both sides parse with the same function
         for fn in (f, h):
             okp = any(cal and cal.path.startswith("url::form_urlencoded::parse") or (cal and cal.key().endswith("form_urlencoded::parse")) for bi, t, cal in fn.calls())
             r.ob("sort:same-parser:%s" % fn.name, okp, fn.site, "parameters are parsed with url::form_urlencoded::parse")
-    ctx.run_rule("R09.2", "both sides sort the query", body, floor=7)
+    ctx.run_rule("R09.2", "both sides sort the query", body, floor=9)
 
 
 def r09_3(ctx):
